@@ -275,7 +275,19 @@ fn run(case: &Case, out: &mut Out) {
                             out.viol("h2-h1-differs", "request line / host read by a strict backend differ from the pseudo-headers");
                         }
                         // every regular field of the client is one field of the output, nothing else but framing
-                        let sent: HL = hs.iter().filter(|(k, _)| !k.starts_with(b":") && !k.eq_ignore_ascii_case(b"host") && !k.eq_ignore_ascii_case(b"cookie")).map(|(k, v)| (k.clone(), trim_ows(v).to_vec())).collect();
+                        let mut cl_seen = false;
+                        let sent: HL = hs
+                            .iter()
+                            .filter(|(k, _)| !k.starts_with(b":") && !k.eq_ignore_ascii_case(b"host") && !k.eq_ignore_ascii_case(b"cookie"))
+                            .filter(|(k, _)| {
+                                // a repeated (equal) content-length is normalised to one field line
+                                let is_cl = k.eq_ignore_ascii_case(b"content-length");
+                                let keep = !(is_cl && cl_seen);
+                                cl_seen |= is_cl;
+                                keep
+                            })
+                            .map(|(k, v)| (k.clone(), trim_ows(v).to_vec()))
+                            .collect();
                         let got: HL = r.headers.iter().filter(|(k, _)| !k.eq_ignore_ascii_case(b"host") && !k.eq_ignore_ascii_case(b"cookie")).cloned().collect();
                         let extra: HL = got.iter().filter(|h| !sent.contains(h)).cloned().collect();
                         let framing_only = extra.iter().all(|(k, v)| (k == b"Content-Length" && v == b"0") || (k == b"Transfer-Encoding" && v == b"chunked"));
